@@ -15,6 +15,7 @@ type ModFileSpec struct {
 	Model       *Model       `json:"model"`  // types (base and extensions) and conditions of this file
 	Extend      map[int]bool `json:"extend,omitempty"`
 	SyntaxError bool         `json:"syntax_error,omitempty"`
+	Fixed       bool         `json:"fixed_layout,omitempty"` // always rendered in the canonical layout
 	Text        string       `json:"text"`
 	Pos         map[string]Pos `json:"pos,omitempty"`
 }
@@ -48,6 +49,9 @@ type ModOpts struct {
 	MultiDup     bool // C12: several conflicts inside one file (several duplicate conditions, several clashing relations)
 	OnlyKinds    []string
 	CaseNames    bool // in a quarter of the sets, rename a condition / relation / type to the upper-case form of another one (names that differ only in case)
+	Twice        bool // one set in six: two more files, identical to the byte, each re-defining an existing type (the same conflict at the same position in two files)
+	EmptySelfExt bool // one set in eight: a file declares a type without relations and extends it, without relations, itself
+	GlueNames    bool // one set in six: names arranged so that <type A> sep <relation> reads like <type B> sep <relation> ("a"+"."+"g.r" == "a.g"+"."+"r")
 }
 
 var ConflictKinds = []string{
@@ -432,6 +436,29 @@ func Modules(t *rapid.T, o ModOpts) *ModuleSet {
 		}
 		ms.Conflicts = cs
 	}
+	if o.EmptySelfExt && rapid.IntRange(0, 7).Draw(t, "emptySelfExt") == 0 {
+		// "type T" without relations and "extend type T" without relations in one file: two declarations that are equal
+		// as values and different as declarations; the merged model has T once, without relations
+		fi := rapid.IntRange(0, nFiles-1).Draw(t, "emptySelfExtFile")
+		f := &ms.Files[fi]
+		if f.Module != "" && !f.SyntaxError {
+			tn := c.fresh("te")
+			f.Model.Types = append(f.Model.Types, TypeDef{Name: tn}, TypeDef{Name: tn})
+			f.Extend[len(f.Model.Types)-1] = true
+		}
+	}
+	if o.Twice && len(baseNames) > 0 && rapid.IntRange(0, 5).Draw(t, "twice") == 0 {
+		tn := rapid.SampledFrom(baseNames).Draw(t, "twiceType")
+		src := ms.Files[base[tn].file].Name
+		for _, name := range []string{"dup-one.fga", "dup-two.fga"} {
+			ms.Files = append(ms.Files, ModFileSpec{Name: name, Module: "core", Fixed: true, Extend: map[int]bool{},
+				Model: &Model{Types: []TypeDef{{Name: tn}}}})
+			ms.Conflicts = append(ms.Conflicts, Conflict{Kind: "duplicate-type-across", Name: tn, Files: uniq(src, name)})
+		}
+	}
+	if o.GlueNames && rapid.IntRange(0, 5).Draw(t, "glueNames") == 0 {
+		glueNames(t, ms)
+	}
 	if o.CaseNames && rapid.IntRange(0, 3).Draw(t, "caseNames") == 0 {
 		caseVariants(t, ms)
 	}
@@ -439,7 +466,9 @@ func Modules(t *rapid.T, o ModOpts) *ModuleSet {
 	for i := range ms.Files {
 		f := &ms.Files[i]
 		var ch Chooser = Canonical{}
-		if o.Layout && rapid.IntRange(0, 3).Draw(t, "layout") == 0 {
+		if f.Fixed {
+			// canonical
+		} else if o.Layout && rapid.IntRange(0, 3).Draw(t, "layout") == 0 {
 			ch = &simpleRapidChooser{t: t}
 		} else if o.Layout && o.MultiDup && rapid.IntRange(0, 5).Draw(t, "layoutCROnly") == 0 {
 			// a file whose only line end is a lone carriage return: one single line for every '\n'-based reader
@@ -690,6 +719,53 @@ func caseVariants(t *rapid.T, ms *ModuleSet) {
 		}
 		return s
 	}
+	renameModules(ms, C, R, T)
+}
+
+// glueNames renames one type B to "<A><sep>g" and one relation of type A to "g<sep><r>", r a relation of B: then
+// "<A><sep>g<sep><r>" is both (type A, relation g<sep>r) and (type B, relation r) for anything that glues type and
+// relation names together with that separator. No conflict arises from it.
+func glueNames(t *rapid.T, ms *ModuleSet) {
+	type tr struct{ typ, rel string }
+	var pairs []tr
+	usedT, usedR := map[string]bool{}, map[string]bool{}
+	for _, f := range ms.Files {
+		for _, td := range f.Model.Types {
+			usedT[td.Name] = true
+			for _, r := range td.Rels {
+				usedR[r.Name] = true
+				if r.Name != "viewer" && r.Name != "parent" {
+					pairs = append(pairs, tr{td.Name, r.Name})
+				}
+			}
+		}
+	}
+	if len(pairs) < 2 {
+		return
+	}
+	a := pairs[rapid.IntRange(0, len(pairs)-1).Draw(t, "glueA")]
+	b := pairs[rapid.IntRange(0, len(pairs)-1).Draw(t, "glueB")]
+	sep := rapid.SampledFrom([]string{".", ".", "/", "-"}).Draw(t, "glueSep")
+	newB, newRa := a.typ+sep+"g", "g"+sep+b.rel
+	if a.typ == b.typ || a.rel == b.rel || a.typ == "user" || b.typ == "user" || usedT[newB] || usedR[newRa] || !singleToken(newB) || !singleToken(newRa) {
+		return
+	}
+	same := func(s string) string { return s }
+	renameModules(ms, same, func(s string) string {
+		if s == a.rel {
+			return newRa
+		}
+		return s
+	}, func(s string) string {
+		if s == b.typ {
+			return newB
+		}
+		return s
+	})
+}
+
+// renameModules applies consistent renamings of condition, relation and type names to every file and to the conflict list.
+func renameModules(ms *ModuleSet, C, R, T func(string) string) {
 	for i := range ms.Files {
 		m := ms.Files[i].Model
 		for j := range m.Conds {
